@@ -482,6 +482,15 @@ def check_c15(tier, seed, replay=None, selftest=False):
             if tier != "quick":
                 bs += [gen_hash.longlane_behaviour(rng, alg, fam, a, b, drain=True) for a, b in rng.sample(pairs, 2)]
             jobs.append(hash_job("c15-longlane-%s-%s" % (alg, fam), bs))
+    # every lane of a full manager holds one segment of >= 2^31 bytes (the same stream in each lane: TLC digests it once): the
+    # minimum search and the per-lane length updates then work on values with the top bit set in every position
+    for alg in gen_hash.FAMS:
+        for fam in gen_hash.FAMS[alg] + ["isal"]:
+            L = gen_hash.lanes(alg, fam)
+            b, off = rng.randrange(2, 1 << 20), rng.randrange(1 << 20)
+            ln = (1 << 31) + rng.choice([0, 37, gen_hash.BLOCK[alg] - 1, 4096 + 5])
+            beh = ["hmgr %s %s %d" % (alg, fam, L)] + ["hsub %d 3 %d %d %d e" % (c, b, off, ln) for c in range(L)] + ["hdrain %d" % (L + 4), "hend"]
+            jobs.append(hash_job("c15-alllong-%s-%s" % (alg, fam), [beh]))
     # the running total is per message: contexts abandoned mid-stream and restarted, reused after completion, refused in between
     for alg in gen_hash.FAMS:
         for fam in gen_hash.all_families(alg):
